@@ -1025,11 +1025,38 @@ def execute(scenario, want_trace=False):
     hist = {}
     trace = []
     ops_done = 0
+    reach = stats.setdefault("reach", {})
+
+    def hit(k):
+        reach[k] = reach.get(k, 0) + 1
+
+    hit("path_style=%s" % knobs.get("path_style", "abs"))
+    hit("bufsize=%s" % knobs.get("bufsize", 8192))
+    if sys.flags.optimize:
+        hit("python -O")
+    states = []
     try:
         for rel, text in sorted(scenario.get("files", {}).items()):
             world.write(rel, text)
+            if "\r\n" in (text or ""):
+                hit("file with CRLF line endings")
         for i, op in enumerate(scenario["ops"]):
             kind = op["op"]
+            if kind == "env_transform":
+                hit("env_transform:" + op["how"])
+            elif kind == "env":
+                hit("env:" + str(op.get("label")))
+            elif kind == "sync":
+                hit("sync via " + op.get("via", "cli"))
+                if any(len(t["files"]) > 1 for t in op["targets"].values()):
+                    hit("sync with two files of one kind")
+                allf = [f for t in op["targets"].values() for f in t["files"]]
+                if len(allf) != len(set(allf)):
+                    hit("sync with one file named under two kinds")
+                if op.get("fault"):
+                    hit("sync with fault")
+                    if op["fault"].get("persist"):
+                        hit("persistent fault planned")
             if kind == "env_transform":
                 apply_env(world, op)
                 hist["prev"] = None
@@ -1081,6 +1108,7 @@ def execute(scenario, want_trace=False):
                 new += oracles_gen(op, S0, S1, out1, stats)
             elif kind == "cli":
                 new += oracles_cli(op, S0, S1, out1, stats)
+            states.append(digest({f: sha(d) for f, d in sorted(S1.items())})[:10])
             rec = {"i": i, "op": kind, "status": out1["status"], "exc": out1.get("exc"), "site": out1.get("site"), "steps": sim1.steps,
                    "events": [[e["kind"], e["path"]] for e in sim1.events], "report": out1.get("report"),
                    "post": {f: sha(d) for f, d in sorted(S1.items())}}
@@ -1120,6 +1148,7 @@ def execute(scenario, want_trace=False):
         world.close()
         if _proc is not None:
             _proc.restore_baseline()  # scenarios are independent of each other
+    stats["state_digests"] = states[:16]
     return {"violations": violations, "digest": digest(trace), "stats": stats, "trace": trace if want_trace else None, "ops_done": ops_done}
 
 
